@@ -93,10 +93,11 @@ def rule_hash_before_after(ctx):
     for tr, st in paths:
         names = [(k, e[1].split(".")[-1]) for k, e in enumerate(tr) if e[0] == "call"]
         idx = {n: k for k, n in reversed(names)}
-        restarted = any(e[0] == "test" and "_restart_if_declared_again" in e[1] and e[2] is True for e in tr)
+        restarted = any(e[0] == "test" and ("_restart_if_declared_again" in e[1] or "_drop_verdict_if_declared_again" in e[1]) and e[2] is True for e in tr)
+        dropped_late = any(e[0] == "test" and "_drop_verdict_if_declared_again" in e[1] and e[2] is True for e in tr)
         if "_run_command" in idx and restarted:
             # declared again while running: the verdict is discarded, the step is made pending again without a hash
-            pre = ["record_run_started", "_new_run", "reset_for_rerun", "_run_command", "_restart_if_declared_again"]
+            pre = ["record_run_started", "_new_run", "reset_for_rerun", "_run_command", "_restart_if_declared_again"] + (["_compute_full_step_hash", "_drop_verdict_if_declared_again"] if dropped_late else [])
             pos = [idx.get(n) for n in pre]
             ctx.check(all(p is not None for p in pos) and pos == sorted(pos) and "mark_completed" not in idx, fi.fq, "a run whose declaration was replaced ends without a verdict", f"order {[n for _, n in names if n in pre or n == 'mark_completed']}", "restart after the command, no completion", where=ctx.where_of(fi))
         elif "_run_command" in idx:
